@@ -35,6 +35,7 @@ class Engine(ExprMixin, StmtMixin, CallMixin, BuiltinMixin, Builtin2Mixin, SpecM
         self.unit_env = {}
         self.unit_pre = None
         self.unit_pre_len = 0
+        self.call_requires_hit = set()
 
     def call_function(self, st, fv, args, node=None, run_async=False):
         fi = fv.fi
